@@ -56,6 +56,10 @@ func init() {
 			if tier == "thorough" {
 				cfgs = []cfg{{1, 3}, {2, 5}, {5, 30}}
 			}
+			tb := 0 // bound of the after-reconnect and silent-peer tuples
+			if tier == "thorough" {
+				tb = 1
+			}
 			for _, c := range cfgs {
 				for _, sp := range []int{0, 1} { // server pings off / same interval as the client
 					shapes := []string{"call-0.1", "call-1.1", "call-7", "idle-7", "ticks"}
@@ -67,8 +71,11 @@ func init() {
 						if c.pc == 1 && (sh == "call-1.1" || sh == "ticks") {
 							b = 1
 						}
-						if tier == "thorough" && c.pc <= 2 {
+						if tier == "thorough" {
 							b = 1
+							if c.pc <= 2 {
+								b = 2
+							}
 						}
 						ps = append(ps, Param{Name: fmt.Sprintf("healthy-p%d-t%d-sp%d-%s", c.pc, c.tc, sp, sh), Bound: b,
 							V: map[string]int{"pc": c.pc, "tc": c.tc, "sp": sp}, S: map[string]string{"shape": sh, "mode": "healthy"}})
@@ -79,11 +86,11 @@ func init() {
 						if c.pc > 2 && tier != "thorough" && sh == "idle-7" {
 							continue
 						}
-						ps = append(ps, Param{Name: fmt.Sprintf("healthy2-p%d-t%d-sp%d-%s", c.pc, c.tc, sp, sh), Bound: 0,
+						ps = append(ps, Param{Name: fmt.Sprintf("healthy2-p%d-t%d-sp%d-%s", c.pc, c.tc, sp, sh), Bound: tb,
 							V: map[string]int{"pc": c.pc, "tc": c.tc, "sp": sp, "after_reconnect": 1}, S: map[string]string{"shape": sh, "mode": "healthy"}})
 					}
 					for _, at := range []string{"idle", "pending", "busy", "busy-early"} {
-						ps = append(ps, Param{Name: fmt.Sprintf("silent-p%d-t%d-sp%d-%s", c.pc, c.tc, sp, at), Bound: 0,
+						ps = append(ps, Param{Name: fmt.Sprintf("silent-p%d-t%d-sp%d-%s", c.pc, c.tc, sp, at), Bound: tb,
 							V: map[string]int{"pc": c.pc, "tc": c.tc, "sp": sp}, S: map[string]string{"shape": at, "mode": "silent"}})
 					}
 				}
